@@ -221,16 +221,26 @@ InstCmp(a, b) == LET x == InstantOf(a)  y == InstantOf(b)
 
 FOrdered == {5, 6, 7, 12, 13, 14}
 
-\* allowed outcomes of `==' between two values of one kind
+\* allowed outcomes of `==' between two values of one kind.  The elements of a list and the members of a dict are
+\* compared by the same rules as cells (Haystack kinds: [true] is not [1]; units; a Ref is its identifier), so a
+\* list equals a list of the same length whose elements are pairwise equal, a dict a dict with the same tags.
+\* (Until the defect hunt of round 7 nested values were constrained by identity only.)
+AllOf(BS) == (IF \A b \in BS : TRUE \in b THEN {TRUE} ELSE {}) \cup (IF \E b \in BS : FALSE \in b THEN {FALSE} ELSE {})
+RECURSIVE SameKindEq(_, _)
 SameKindEq(l, v) ==
     CASE l[1] = 5  -> IF IsNaNDec(l[2]) \/ IsNaNDec(v[2]) THEN BOOLEAN ELSE {DecCmp(l[2], v[2]) = 0}
       [] l[1] = 6  -> IF l[3] # v[3] THEN {FALSE}
                       ELSE IF IsNaNDec(l[2]) \/ IsNaNDec(v[2]) THEN BOOLEAN ELSE {DecCmp(l[2], v[2]) = 0}
       [] l[1] = 10 -> {l[2] = v[2]}                 \* a Ref is its identifier; the display name is a decoration
       [] l[1] = 14 -> {InstCmp(l, v) = 0}
-      [] l[1] \in {16, 17, 18} -> IF l = v THEN {TRUE} ELSE BOOLEAN      \* nested values: only identity is constrained
+      [] l[1] = 16 -> IF Len(l[2]) # Len(v[2]) THEN {FALSE}
+                      ELSE AllOf({IF l[2][i][1] # v[2][i][1] THEN {FALSE} ELSE SameKindEq(l[2][i], v[2][i]) : i \in 1..Len(l[2])})
+      [] l[1] = 17 -> IF Len(l[2]) # Len(v[2]) \/ \E i \in 1..Len(l[2]) : l[2][i][1] # v[2][i][1] THEN {FALSE}
+                      ELSE AllOf({IF l[2][i][2][1] # v[2][i][2][1] THEN {FALSE} ELSE SameKindEq(l[2][i][2], v[2][i][2])
+                                  : i \in 1..Len(l[2])})
+      [] l[1] = 18 -> IF l = v THEN {TRUE} ELSE BOOLEAN                  \* nested grids: only identity is constrained
       [] l[1] = 15 -> IF l = v THEN {TRUE} ELSE BOOLEAN                  \* coordinates are rounded on the way
-      [] OTHER -> {l = v}
+      [] OTHER -> {l = v}                           \* an XStr is its type name and its payload
 
 \* -1 / 0 / 1 for two values of one ordered kind; 2 when the order is not defined; 3 when the two are not comparable
 SameKindCmp(l, v) ==
